@@ -1,17 +1,22 @@
-import EaselModel.Sqio.Model
-/-! # What the bytes/residues-per-line tracker of `seebuf` does and does not guarantee (C07, C04) -/
+import EaselModel.Sqio.TrackLemmas
+/-! # What the bytes/residues-per-line tracker of `seebuf` guarantees (C07, C04)
+
+The tracker as repaired by 283ccd7 (`seebuf_linegeometry()`): events of a scan, one per line. -/
 namespace EaselModel.Sqio.Tracker
 
-/-- the tracker-relevant events of a scan: a record header (`header_*` resets `prv*` to −1, `cur*` to 0) and an
-    end-of-line seen by `seebuf` with the line's bytes and residues -/
+/-- the tracker-relevant events of a scan: a record header (`header_*` resets `prv*` to −1, `cur*` to 0), an end-of-line seen by
+    `seebuf` with the line's bytes (newline included) and residues, and the end of `seebuf` on an unterminated stretch (the last
+    line of a record that ends at EOF or at the EOD character) -/
 inductive Ev
   | hdr
   | eol (b r : Int)
+  | stop (b r : Int)
   deriving Repr, DecidableEq
 
 def step (t : Track) : Ev → Track
   | .hdr => { t with prvrpl := -1, prvbpl := -1, currpl := 0, curbpl := 0 }
   | .eol b r => t.onEol b r
+  | .stop b r => t.onStop b r
 
 def run (t : Track) (evs : List Ev) : Track := evs.foldl step t
 
@@ -19,89 +24,7 @@ def run (t : Track) (evs : List Ev) : Track := evs.foldl step t
 def events (recs : List (List (Int × Int))) : List Ev :=
   recs.flatMap fun lines => Ev.hdr :: lines.map fun ln => Ev.eol ln.1 ln.2
 
-theorem onEol_rpl (t : Track) (b r : Int) :
-    (t.onEol b r).rpl =
-      if t.rpl ≠ 0 ∧ t.prvrpl ≠ -1 then
-        (if t.rpl = -1 then t.prvrpl else if t.prvrpl ≠ t.rpl then 0
-         else if (if t.currpl ≠ -1 then t.currpl + r else t.currpl) > t.rpl then 0 else t.rpl)
-      else t.rpl := by
-  simp only [Track.onEol, bne_iff_ne, ne_eq, Bool.and_eq_true, beq_iff_eq, ite_not]
-
-theorem onEol_prvrpl (t : Track) (b r : Int) :
-    (t.onEol b r).prvrpl = if t.currpl ≠ -1 then t.currpl + r else t.currpl := by
-  simp [Track.onEol]
-
-theorem onEol_currpl (t : Track) (b r : Int) : (t.onEol b r).currpl = 0 := by simp [Track.onEol]
-
-theorem step_currpl (t : Track) (e : Ev) : (step t e).currpl = 0 := by
-  cases e <;> simp [step, onEol_currpl]
-
-theorem step_rpl_cases (t : Track) (e : Ev) :
-    (step t e).rpl = t.rpl ∨ (step t e).rpl = 0 ∨ t.rpl = -1 := by
-  cases e with
-  | hdr => left; rfl
-  | eol b r =>
-    simp only [step, onEol_rpl]
-    repeat' split
-    all_goals first | (left; rfl) | (right; left; rfl) | (right; right; assumption)
-
-theorem run_rpl_mono (evs : List Ev) (t : Track) (p : Int) (hp : p > 0) (h : (run t evs).rpl = p) :
-    t.rpl = p ∨ t.rpl = -1 := by
-  induction evs generalizing t with
-  | nil => left; exact h
-  | cons e rest ih =>
-    have h' : (run (step t e) rest).rpl = p := h
-    rcases ih (step t e) h' with h1 | h1
-    · rcases step_rpl_cases t e with h2 | h2 | h2
-      · left; omega
-      · omega
-      · right; exact h2
-    · rcases step_rpl_cases t e with h2 | h2 | h2
-      · right; omega
-      · omega
-      · right; exact h2
-
 theorem run_append (t : Track) (a b : List Ev) : run t (a ++ b) = run (run t a) b := by
   simp [run, List.foldl_append]
-
-/-- **What the tracker guarantees.** If a scan ends with `rpl = p > 0`, every line that was followed by another terminated
-    line of the same record (two consecutive end-of-line events, something before them) has exactly `p` residues. -/
-theorem checked_lines_have_rpl (pre post : List Ev) (b1 r1 b2 r2 : Int) (t0 : Track) (p : Int)
-    (hpre : pre ≠ []) (hr1 : r1 ≥ 0) (hp : p > 0)
-    (h : (run t0 (pre ++ [Ev.eol b1 r1, Ev.eol b2 r2] ++ post)).rpl = p) : r1 = p := by
-  rw [run_append, run_append] at h
-  -- state before the two lines: currpl = 0
-  have hcur : (run t0 pre).currpl = 0 := by
-    obtain ⟨init, e, rfl⟩ : ∃ init e, pre = init ++ [e] := ⟨pre.dropLast, pre.getLast hpre, (List.dropLast_concat_getLast hpre).symm⟩
-    rw [run_append]; simp [run, step_currpl]
-  generalize run t0 pre = t at h hcur
-  have hrun : run t [Ev.eol b1 r1, Ev.eol b2 r2] = (t.onEol b1 r1).onEol b2 r2 := rfl
-  rw [hrun] at h
-  have hm := run_rpl_mono post _ p hp h
-  have hprv : (t.onEol b1 r1).prvrpl = r1 := by rw [onEol_prvrpl, hcur]; simp
-  rw [onEol_rpl, hprv] at hm
-  split at hm
-  · split at hm
-    · omega
-    · split at hm
-      · omega
-      · split at hm
-        · omega
-        · rename_i h3 _; omega
-  · rename_i h1
-    have hz : (t.onEol b1 r1).rpl = 0 := by
-      by_cases hz : (t.onEol b1 r1).rpl = 0
-      · exact hz
-      · exact absurd ⟨hz, by omega⟩ h1
-    omega
-
-/-- the same statement for bytes per line -/
-theorem onEol_bpl (t : Track) (b r : Int) :
-    (t.onEol b r).bpl =
-      if t.bpl ≠ 0 ∧ t.prvbpl ≠ -1 then
-        (if t.bpl = -1 then t.prvbpl else if t.prvbpl ≠ t.bpl then 0
-         else if (if t.curbpl ≠ -1 then t.curbpl + b else t.curbpl) > t.bpl then 0 else t.bpl)
-      else t.bpl := by
-  simp only [Track.onEol, bne_iff_ne, ne_eq, Bool.and_eq_true, beq_iff_eq, ite_not]
 
 end EaselModel.Sqio.Tracker
